@@ -528,12 +528,12 @@ Section WithOracles.
     | _ => match lo, hi with None, None => Ok tt | _, _ => Crash (s_ "TypeError") end
     end.
 
+  (* the bound check applies to the numbers of the list only (None / Auto elements are tested first) *)
   Definition elem_as_word (isint:bool) (c:lconv) (v:pyv) : res word :=
-    do _ <- check_value_py isint (lvmin c) (lvmax c) v;
     match v with
     | PNone => if none_el c then Ok (uw (s_ "None")) else UErr (s_ "ElementNone") [] 0
     | PAuto => if auto_el c then Ok (uw (s_ "Auto")) else UErr (s_ "ElementAuto") [] 0
-    | PNum n => do s <- value_as_str isint n; Ok (uw s)
+    | PNum n => do _ <- check_value_py isint (lvmin c) (lvmax c) v; do s <- value_as_str isint n; Ok (uw s)
     | PList _ => Crash (s_ "TypeError")
     end.
 
